@@ -214,6 +214,12 @@ def rowEvent (id : String) (op : List String) (ret : List String) (secs : List (
     | "norm" => (apply .normalize, none, true)
     | "lc" => (apply (.linearCombine rb (int! (a 3)) (int! (a 4)) 0 r.size), none, false)
     | "lcr" => (apply (.linearCombine rb (int! (a 3)) (int! (a 4)) (nat! (a 5)) (nat! (a 6))), none, false)
+    | "comb" =>
+      let c1 := int! (a 4); let c2 := int! (a 5)
+      (match nat! (a 3) with
+       | 0 => (apply (.linearCombine rb c1 c2 0 r.size), none, false)
+       | 1 => (upd ⟨r.size, r.m.filterMap (fun p => let v := p.2 * rb.m.get p.1; if v = 0 then none else some (p.1, v))⟩, none, false)
+       | _ => (apply (.linearCombine rb 1 c2 0 r.size), none, false))
     | "swaprows" => ((rows.setIfInBounds slotA rb).setIfInBounds (nat! (a 2)) r, none, true)
     | "swapmix" => ((rows.setIfInBounds slotA (canonRow rb)).setIfInBounds (nat! (a 2)) (canonRow r), none, true)
     | "copy" => (upd rb, none, true)
